@@ -1,6 +1,7 @@
 import YaegiVerif.Model.Method
 import YaegiVerif.Model.MethodRun
 import YaegiVerif.Model.MethodClass
+import YaegiVerif.Model.MethodHost
 import YaegiVerif.Spec.GoSelector
 import YaegiVerif.Expected.C05
 import YaegiVerif.Generated.C05
@@ -14,7 +15,7 @@ import YaegiVerif.Proofs.C05Recv
   Statements a reader of the property cares about; helper lemmas are in Proofs/C05*.lean.
 -/
 namespace YaegiVerif.Props.C05
-open YaegiVerif YaegiVerif.Method YaegiVerif.MethodRun YaegiVerif.MethodClass YaegiVerif.Spec.Selector
+open YaegiVerif YaegiVerif.Method YaegiVerif.MethodRun YaegiVerif.MethodClass YaegiVerif.MethodHost YaegiVerif.Spec.Selector
 open YaegiVerif.Proofs.C05
 
 /-! ### ties to the source -/
@@ -28,6 +29,9 @@ theorem unrecognised_tie : Generated.C05.unrecognised = Expected.C05.unrecognise
 /-- the transcribed functions (and the selector case and the two switch cases of cfg.go, the
     receiver binding of genFunctionWrapper) are textually the ones the model was written from -/
 theorem source_tie : Generated.C05.sourceHashes = Expected.C05.sourceHashes := by decide
+
+/-- the composed wrappers of stdlib/wrapper-composed.go are the ones the model was written for -/
+theorem composed_tie : Generated.C05.composedWrappers = Expected.C05.composedWrappers := by decide
 
 abbrev EF : Facts := Expected.C05.facts
 
@@ -633,6 +637,116 @@ example :
     implementsY EF msDecls 1 false (sigList [⟨"Inc", false, 0⟩]) = false ∧
     implementsY { EF with implementsChecksRecv := false } msDecls 0 false (sigList [⟨"Inc", false, 0⟩]) = true ∧
     namesResolved msDecls 0 [⟨"Inc", false, 0⟩] = true ∧ sigAgree msDecls 0 [⟨"Inc", false, 0⟩] = true := by decide
+
+/-! ### host-side probes of optional interfaces -/
+
+/-- **a host-side probe `x.(J)` on a script value converted to the host interface `I` succeeds exactly
+    when it does in compiled Go** — when the value implements `J` — on the domain: stdlib has a
+    composed wrapper for `I` + `J` (and no other composed wrapper for `I`; `hC`), the conversion is legal
+    (`hI`) and `methods()` of the type is its method set (`msDom`: `getWrapper` looks at names in
+    `methods()`, own and promoted alike, whatever the receiver kind). Requires `getWrapper` to decide
+    with the full method set (`wrapperUsesMethodSet`, the extracted fact). All declaration sets, value
+    and pointer operands, methods promoted through embedded values and pointers. -/
+theorem host_probe_agrees_partial (F : Facts) (hF : F.wrapperUsesMethodSet = true) (C : Composed) (D : Decls) (d : DynT)
+    (base : String) (im jm : List String)
+    (hC : composedOf C base = [im ++ jm])
+    (hI : ∀ i ∈ im, i ∈ (methodSet D d).map (·.name))
+    (hd : msDom D d = true) :
+    hostProbeY F C D d.t base im jm = hostProbeG D d jm := by
+  have hms := methodset_correct_partial D d hd
+  unfold hostProbeY hostProbeG chooseWrapperY visibleNamesY
+  rw [hC, hF]
+  simp only [if_true, List.find?_cons, List.find?_nil]
+  by_cases hall : (im ++ jm).all (fun m => ((methodsY D d.t).map (·.1)).contains m) = true
+  · -- the type has every method of the composed wrapper: it is chosen, and Go's probe succeeds too
+    rw [hall]
+    simp only
+    have hy : jm.all (fun j => (im ++ jm).contains j) = true := by
+      rw [List.all_eq_true]; intro j hj; simp [hj]
+    have hg : jm.all (fun j => ((methodSet D d).map (·.name)).contains j) = true := by
+      rw [List.all_eq_true] at hall ⊢
+      intro j hj
+      have := hall j (by simp [hj])
+      simp only [List.contains_iff_mem] at this ⊢
+      exact (hms j).mp this
+    rw [hy, hg]
+  · -- some method of the composed wrapper is missing: the plain wrapper; it must be one of `J`'s
+    have hfalse : (im ++ jm).all (fun m => ((methodsY D d.t).map (·.1)).contains m) = false := by
+      simpa using hall
+    rw [hfalse]
+    simp only [Bool.false_eq_true, if_false]
+    have hex : ∃ x ∈ im ++ jm, x ∉ (methodsY D d.t).map (·.1) := by
+      obtain ⟨x, hx, hxp⟩ := List.all_eq_false.mp hfalse
+      refine ⟨x, hx, ?_⟩
+      intro hmem
+      apply hxp
+      simp only [List.contains_iff_mem]
+      exact hmem
+    obtain ⟨x, hx, hxn⟩ := hex
+    have hxj : x ∈ jm ∧ x ∉ im := by
+      rcases List.mem_append.mp hx with hxi | hxj
+      · exact absurd ((hms x).mpr (hI x hxi)) hxn
+      · exact ⟨hxj, fun hxi => hxn ((hms x).mpr (hI x hxi))⟩
+    have hy : jm.all (fun j => im.contains j) = false := by
+      rw [Bool.eq_false_iff]; intro h
+      have := (List.all_eq_true.mp h) x hxj.1
+      simp only [List.contains_iff_mem] at this
+      exact hxj.2 this
+    have hg : jm.all (fun j => ((methodSet D d).map (·.name)).contains j) = false := by
+      rw [Bool.eq_false_iff]; intro h
+      have := (List.all_eq_true.mp h) x hxj.1
+      simp only [List.contains_iff_mem] at this
+      exact hxn ((hms x).mpr this)
+    rw [hy, hg]
+
+/-- the same for the facts and the table regenerated from the source, for the two pairs of the io
+    package: io.Reader + io.WriterTo and io.Writer + io.ReaderFrom (what io.Copy probes) -/
+theorem host_probe_agrees_generated (D : Decls) (d : DynT) (hd : msDom D d = true) :
+    ((∀ i ∈ ["Read"], i ∈ (methodSet D d).map (·.name)) →
+      hostProbeY Generated.C05.facts Generated.C05.composedWrappers D d.t "_io_Reader" ["Read"] ["WriteTo"] = hostProbeG D d ["WriteTo"]) ∧
+    ((∀ i ∈ ["Write"], i ∈ (methodSet D d).map (·.name)) →
+      hostProbeY Generated.C05.facts Generated.C05.composedWrappers D d.t "_io_Writer" ["Write"] ["ReadFrom"] = hostProbeG D d ["ReadFrom"]) := by
+  have hF : Generated.C05.facts.wrapperUsesMethodSet = true := by rw [facts_tie]; rfl
+  constructor
+  · intro hI
+    exact host_probe_agrees_partial _ hF _ D d "_io_Reader" ["Read"] ["WriteTo"] (by rw [composed_tie]; rfl) hI hd
+  · intro hI
+    exact host_probe_agrees_partial _ hF _ D d "_io_Writer" ["Write"] ["ReadFrom"] (by rw [composed_tie]; rfl) hI hd
+
+/-- `R{nr}` with `Read` and `WriteTo` on `*R`; `E` embeds `*R`, `V` embeds `R` by value; `W{nw}` with
+    `Write`, `WriteString` and `Seek` on `*W` -/
+def hostDecls : Decls :=
+  [ .strct "R" [⟨"nr", .int, 0⟩] [⟨"Read", true, 0⟩, ⟨"WriteTo", true, 0⟩],
+    .strct "E" [⟨"ne", .int, 0⟩, ⟨"R", .embPtr, 0⟩] [],
+    .strct "V" [⟨"nv", .int, 0⟩, ⟨"R", .emb, 0⟩] [],
+    .strct "W" [⟨"nw", .int, 0⟩] [⟨"Write", true, 0⟩, ⟨"WriteString", true, 0⟩, ⟨"Read", true, 0⟩, ⟨"Seek", true, 0⟩] ]
+
+/-- non-vacuity and **regression of the seeded change C05-3**: own and promoted `WriteTo` are seen by
+    the probe as in Go (`*R`, a value of `E`, `*V`); if `getWrapper` tested the methods declared on the
+    type itself only, the promoted ones would get the plain wrapper and the probe would fail -/
+example :
+    WF hostDecls ∧ msDom hostDecls ⟨0, true⟩ = true ∧ msDom hostDecls ⟨1, false⟩ = true ∧ msDom hostDecls ⟨2, true⟩ = true ∧
+    hostProbeG hostDecls ⟨0, true⟩ ["WriteTo"] = true ∧
+    hostProbeY EF Expected.C05.composedWrappers hostDecls 0 "_io_Reader" ["Read"] ["WriteTo"] = true ∧
+    hostProbeG hostDecls ⟨1, false⟩ ["WriteTo"] = true ∧
+    hostProbeY EF Expected.C05.composedWrappers hostDecls 1 "_io_Reader" ["Read"] ["WriteTo"] = true ∧
+    hostProbeY EF Expected.C05.composedWrappers hostDecls 2 "_io_Reader" ["Read"] ["WriteTo"] = hostProbeG hostDecls ⟨2, true⟩ ["WriteTo"] ∧
+    hostProbeY { EF with wrapperUsesMethodSet := false } Expected.C05.composedWrappers hostDecls 1 "_io_Reader" ["Read"] ["WriteTo"] = false ∧
+    hostProbeY { EF with wrapperUsesMethodSet := false } Expected.C05.composedWrappers hostDecls 0 "_io_Reader" ["Read"] ["WriteTo"] = true := by decide
+
+/-- **witnesses for what the domain excludes**: (F05-22) a pair without composed wrapper — io.Writer +
+    io.StringWriter, io.Reader + io.Seeker: the value implements the optional interface, Go's probe
+    succeeds, host code sees the plain wrapper; (F05-23) `msDom` fails — a *value* of `V` (which embeds
+    `R` by value) has no `WriteTo` in its method set (pointer receiver), `getWrapper` finds the name in
+    `methods()` and hands out the composed wrapper -/
+theorem host_probe_witnesses :
+    hostProbeG hostDecls ⟨3, true⟩ ["WriteString"] = true ∧
+    hostProbeY EF Expected.C05.composedWrappers hostDecls 3 "_io_Writer" ["Write"] ["WriteString"] = false ∧
+    hostProbeG hostDecls ⟨3, true⟩ ["Seek"] = true ∧
+    hostProbeY EF Expected.C05.composedWrappers hostDecls 3 "_io_Reader" ["Read"] ["Seek"] = false ∧
+    hostProbeG hostDecls ⟨2, false⟩ ["WriteTo"] = false ∧
+    hostProbeY EF Expected.C05.composedWrappers hostDecls 2 "_io_Reader" ["Read"] ["WriteTo"] = true ∧
+    msDom hostDecls ⟨2, false⟩ = false := by decide
 
 /-! ### type switches -/
 
